@@ -159,20 +159,20 @@ func (sess *session) newRef(fid Fid) (ref *SFid, err error) {
 func (sess *session) delRef(ctx context.Context, fid Fid,
 	remove bool) error {
 
-	ref1, found := sess.refs.LoadAndDelete(fid)
-	if !found {
-		return ErrUnknownfid
+	// Take the fid's lock first and unbind it only once the entry has been
+	// released: operations that are still in progress on the fid finish
+	// before it disappears, and requests arriving meanwhile queue up behind
+	// us instead of seeing "unknown fid" for a fid that has not been released
+	// yet (delRefAction clears ref.Ent, which is what they then find).
+	ref, err := sess.getRef(fid)
+	if err != nil {
+		return err
 	}
-	ref, _ := ref1.(*SFid)
-
-	ref.Lock()
 	defer ref.Unlock()
-	if ref.Ent == nil {
-		// the fid was only reserved by an attach/walk that has failed since.
-		return ErrUnknownfid
-	}
 
-	return delRefAction(ctx, ref, remove)
+	err = delRefAction(ctx, ref, remove)
+	sess.refs.CompareAndDelete(fid, ref)
+	return err
 }
 
 func combine_errors(err, err2 error) error {
